@@ -13,6 +13,16 @@ WH_NOTE = ("trusted: Coq 8.16.1 kernel (no axioms: Print Assumptions is 'Closed 
            "execution; Vec/VecDeque/hashbrown/serde modelled by contract; archetype-table order is an oracle input")
 
 CLAIMED = {
+    "C14": dict(engine="compile-family", note="CFAIL_NOTE",
+                text="Proved: whatever the modelled bounds accept (ContainsViews, Disjoint through the regenerated Merge table, resource "
+                     "ContainsViews, Send/Sync bounds and returned-reference lifetimes regenerated from the source) holds no two "
+                     "simultaneously usable references to one component/resource with one mutable, views nothing outside the registry "
+                     "and lets no non-Send/non-Sync payload cross threads, outside known class K14a (F3, refuted with witness); the "
+                     "conflict-free neighbours are accepted. A generated family of 132 programs is compiled by the real rustc (trait "
+                     "resolution crate + borrow-check crate), verdicts compared with the property and with the model. PARTIAL: rustc's "
+                     "trait solver and borrow checker are the oracle for the bounds themselves.",
+                technique="Rocq proof that the modelled API bounds imply no aliasing / no thread escape (facts regenerated from signatures) + rustc verdicts on a generated program family",
+                ref="DESIGN.md §7 C14"),
     "C09": dict(engine="world-histories",
                 text="Proved for every consumer obeying rayon's contract (associative reducer with the empty fold as unit, driving "
                      "distributes over concatenation) and every splitting of the archetype sequence: the custom "
@@ -152,7 +162,11 @@ CTOR_NOTE = ("trusted: Coq 8.16.1 kernel (no axioms), tools/translate_facts.py (
              "in-Coq evaluation of the model for the correspondence, generated Rust harness (harness/src/bin/ctor*.rs); "
              "TypeId injectivity; serde_json as the deserializer")
 
-NA_REASON = "check under construction in this round (not yet registered); see DESIGN.md §7"
+CFAIL_NOTE = ("trusted: Coq 8.16.1 kernel (no axioms), tools/translate_facts.py + tools/translate.py (bounds and lifetimes read off the "
+              "source), in-Coq evaluation of the model, rustc 1.95 as the oracle for trait resolution and borrow checking, "
+              "attribution of diagnostics to programs by primary span line (tools/gen_cfail.py, lib/props.py)")
+
+NA_REASON = "not built yet: needs the physical raw-parts layer P of DESIGN.md §3.3 (the technique applies; see DESIGN.md §0)"
 
 
 def main():
@@ -174,7 +188,7 @@ def main():
             "replay_cmd_template": "./check %s --replay {path}" % pid,
             "engine": c["engine"],
             "level_claimed": {"category": "proof", "text": c["text"], "design_ref": c["ref"]},
-            "level_note": SCHED_NOTE if c.get("note") == "SCHED_NOTE" else CTOR_NOTE if c.get("note") == "CTOR_NOTE" else c.get("note", WH_NOTE),
+            "level_note": SCHED_NOTE if c.get("note") == "SCHED_NOTE" else CTOR_NOTE if c.get("note") == "CTOR_NOTE" else CFAIL_NOTE if c.get("note") == "CFAIL_NOTE" else c.get("note", WH_NOTE),
             "technique": c["technique"],
         })
     engines = [
@@ -189,6 +203,8 @@ def main():
                            "evaluated in Coq on the regenerated tables; sequential-reference, reachable-address and greedy-grouping oracles"},
         {"name": "constructors", "path": "lib/props.py", "serves_properties": ["C18"],
          "kind_free_text": "generated registries with one duplicated type x 4 constructors, all small column-length vectors through Batch::new"},
+        {"name": "compile-family", "path": "lib/props.py", "serves_properties": ["C14"],
+         "kind_free_text": "generated Rust programs (tools/gen_cfail.py), one function per program in two crates, compiled by cargo check; verdict per program by diagnostic span"},
     ]
     m = {"version": 1,
          "setup_cmd": "./setup.sh",
